@@ -572,6 +572,9 @@ func (m *Machine) setupModels() {
 		if m.opt.FixedHdr {
 			n = 3 // C14: equal structs must have equal encoded lengths (A1)
 		}
+		if m.opt.HdrLen > 0 {
+			n = m.opt.HdrLen
+		}
 		id := m.newBlob("thrift", ci, nil, n)
 		return Tuple{Slice{V: blobBytes(id, n)}, nilErr()}
 	})
